@@ -1,3 +1,110 @@
-From V Require Import Model.NtsRecord Model.NtsMsg Proofs.NtsRecord.
-Theorem C30_placeholder : True. Proof. exact placeholder_nts. Qed.
-Print Assumptions C30_placeholder.
+(* C30  NTS-KE messages are parsed totally, boundedly and round-trip.
+   Property theorems only; proofs are in Proofs/NtsRecord.v and Proofs/NtsMsg.v.
+
+   Parsers return (outcome, bytes left unread); "bytes consumed" is the prefix
+   c with input = c ++ unread.  Bytes are Z; no theorem needs them in 0..255. *)
+From V Require Import Model.NtsRecord Model.NtsMsg Proofs.NtsRecord Proofs.NtsMsg Gen.ConstNts.
+
+(* ---- totality: no input makes a parser panic (the model's panic sites are the
+   two guarded indexings `algorithms[0]` / `protocols[0]` of Request::parse and
+   the exhaustion of the loop fuel, i.e. non-termination of the record loop) ---- *)
+Theorem C30_total_record : forall b s, fst (parse_record b) <> Panic s.
+Proof. exact parse_record_total. Qed.
+
+Theorem C30_total_request : forall b s, fst (parse_request b) <> Panic s.
+Proof. exact parse_request_total. Qed.
+
+Theorem C30_total_response : forall b s, fst (parse_response b) <> Panic s.
+Proof. exact parse_response_total. Qed.
+
+(* ---- boundedness: in every outcome (accepted or rejected) what was consumed is
+   a prefix of at most 4096 bytes, and the outcome is the outcome on the first
+   4096 bytes of the stream ---- *)
+Theorem C30_bounded_request : forall b x rest,
+  parse_request b = (x, rest) -> exists c, b = c ++ rest /\ zlen c <= 4096.
+Proof. exact parse_request_bounded. Qed.
+
+Theorem C30_bounded_response : forall b x rest,
+  parse_response b = (x, rest) -> exists c, b = c ++ rest /\ zlen c <= 4096.
+Proof. exact parse_response_bounded. Qed.
+
+Theorem C30_request_sees_4096 : forall b,
+  fst (parse_request b) = fst (parse_request (firstn 4096 b)) /\
+  snd (parse_request b) = snd (parse_request (firstn 4096 b)) ++ skipn 4096 b.
+Proof. exact parse_request_prefix. Qed.
+
+Theorem C30_response_sees_4096 : forall b,
+  fst (parse_response b) = fst (parse_response (firstn 4096 b)) /\
+  snd (parse_response b) = snd (parse_response (firstn 4096 b)) ++ skipn 4096 b.
+Proof. exact parse_response_prefix. Qed.
+
+(* a single record: what is left unread is a suffix of the input, in every outcome *)
+Theorem C30_record_consumes_prefix : forall b x rest,
+  parse_record b = (x, rest) -> exists c, b = c ++ rest.
+Proof. exact parse_record_suffix. Qed.
+
+(* ---- round trips: whatever a parser accepts re-serialises to bytes that parse
+   back to the same value, whatever follows them in the stream; the
+   re-serialisation is never longer than what was consumed, so it passes the
+   cap again ---- *)
+Theorem C30_record_roundtrip : forall b r rest,
+  parse_record b = (Ok r, rest) -> forall t, parse_record (ser_record r ++ t) = (Ok r, t).
+Proof. exact record_reparse. Qed.
+
+Theorem C30_record_reserialisation_not_longer : forall b r rest,
+  parse_record b = (Ok r, rest) ->
+  wf_record r /\ exists c, b = c ++ rest /\ zlen (ser_record r) <= zlen c.
+Proof. exact parse_record_ok. Qed.
+
+Theorem C30_request_roundtrip : forall b q rest,
+  parse_request b = (Ok q, rest) -> forall t, parse_request (ser_request q ++ t) = (Ok q, t).
+Proof. exact request_reparse. Qed.
+
+Theorem C30_request_reserialisation_fits : forall b q rest,
+  parse_request b = (Ok q, rest) -> wf_request q /\ zlen (ser_request q) <= 4096.
+Proof. exact parse_request_ok. Qed.
+
+Theorem C30_response_roundtrip : forall b p rest,
+  parse_response b = (Ok p, rest) -> forall t, parse_response (ser_response p ++ t) = (Ok p, t).
+Proof. exact response_reparse. Qed.
+
+Theorem C30_response_reserialisation_fits : forall b p rest,
+  parse_response b = (Ok p, rest) -> wf_response p /\ zlen (ser_response p) <= 4096.
+Proof. exact parse_response_ok. Qed.
+
+(* the constructs the model mirrors are still the ones counted in the sources *)
+Theorem C30_site_census :
+  TAKE_MAX_COUNT = 2 /\ PARSE_DISPATCH_ARMS = 14 /\ MSG_INDEX0_SITES = 3 /\ MSG_LEN_GUARD = 1
+  /\ MAX_MESSAGE_SIZE = 4096.
+Proof. exact nts_census. Qed.
+
+(* non-vacuity: a key-exchange request with a denied server and an ignored
+   record, a fixed-key request, a response with a cookie and a port are accepted;
+   an unknown critical record and an over-long message are rejected *)
+Example C30_nonvacuous :
+  parse_request [128;1;0;4;128;1;0;0; 128;4;0;2;0;15; 0;13;0;1;97; 0;99;0;1;7; 128;0;0;0; 42]
+    = (Ok (KeyExchange [15] [32769; 0] [[97]]), [42])
+  /\ fst (parse_request ([0;14;0;2;104;105; 128;12;0;64] ++ repeat 7 64 ++ [128;1;0;2;0;0; 128;4;0;2;0;15; 0;8;0;0; 128;0;0;0]))
+    = Ok (FixedKey [104;105] (repeat 7 32) (repeat 7 32) 15 0 true)
+  /\ parse_response [128;1;0;2;0;0; 128;4;0;2;0;17; 0;5;0;3;1;2;3; 128;7;0;2;17;108; 128;0;0;0]
+    = (Ok (mkResp 0 17 [[1;2;3]] None (Some 4460) false), [])
+  /\ fst (parse_request [128;99;0;0; 128;0;0;0]) = Err E_CRITICAL
+  /\ parse_record [128;6;0;2;195;40] = (Err E_DATA, [])
+  /\ fst (parse_request (flat_map (fun _ => [0;8;0;0]) (repeat tt 1024) ++ [128;0;0;0])) = Err E_EOF.
+Proof. vm_compute. repeat split. Qed.
+
+Print Assumptions C30_total_record.
+Print Assumptions C30_total_request.
+Print Assumptions C30_total_response.
+Print Assumptions C30_bounded_request.
+Print Assumptions C30_bounded_response.
+Print Assumptions C30_request_sees_4096.
+Print Assumptions C30_response_sees_4096.
+Print Assumptions C30_record_consumes_prefix.
+Print Assumptions C30_record_roundtrip.
+Print Assumptions C30_record_reserialisation_not_longer.
+Print Assumptions C30_request_roundtrip.
+Print Assumptions C30_request_reserialisation_fits.
+Print Assumptions C30_response_roundtrip.
+Print Assumptions C30_response_reserialisation_fits.
+Print Assumptions C30_site_census.
